@@ -8,7 +8,8 @@
 From Coq Require Import ZArith List Bool Lia Permutation.
 From EV Require Import Res Arr Join JoinSpec JoinMain MapStream MapStreamSpec SessionMerge SessionMergeSpec
   SessionMergeBase SessionMergeLeft SessionMergeTop SessionMergeIndex SessionMergePandas
-  SessionMergeInner SessionMergeSwap SessionMergeInnerTop SessionMergeJoin.
+  SessionMergeInner SessionMergeSwap SessionMergeInnerTop SessionMergeJoin
+  JoinDriver JoinMainKRU SessionMergeStream.
 Import ListNotations.
 Open Scope Z_scope.
 
@@ -113,27 +114,39 @@ Theorem ordered_merge_left_streamed_both_unique_correct : forall L R srcs lu,
 Proof. exact oml_streamed_both_unique_correct. Qed.
 Print Assumptions ordered_merge_left_streamed_both_unique_correct.
 
-(* PARTIAL (left key with duplicates).  Same statement, RELATIVE to the end-to-end theorem of the right-unique
-   streamed generator (C03, kind KRU: `streamed (mkvar KRU true) L R inv cs = Ok (expected ...)` unless a run of
-   equal left keys is as long as the chunk size), which is proved on another branch (Proofs/JoinRU.v) and is here
-   an explicit premise.  Missing for "full": discharging that premise on this branch. *)
-Theorem ordered_merge_left_streamed_right_unique_partial : forall L R srcs lu,
-  srcs <> [] -> sorted L -> (lu = true -> ssorted L) -> ssorted R -> len R <= INVALID_INDEX ->
-  (forall s, In s srcs -> len s = len R) ->
-  forall cs, lu = false -> 1 <= cs ->
-  streamed (mkvar KRU true) L R INVALID_INDEX cs = Ok (expected KRU true INVALID_INDEX L R) ->
-  ordered_merge_left Fixed cs L R srcs FFldSink [] MFld lu true
-  = Ok (mk_oml None (Some (map (left_payload 0 L R) srcs)) (Some (map snd (left_join INVALID_INDEX L R)))).
-Proof. exact oml_streamed_right_unique_partial. Qed.
-Print Assumptions ordered_merge_left_streamed_right_unique_partial.
+(* FULL (left key with duplicates, right key unique).  The streamed form for EVERY chunk size >= 1: the call
+   returns the join (sinks = left_payload columns, map field = join map), or raises the documented clear
+   ValueError of get_next_chunk — and the latter only when a whole window of cs consecutive left keys is one
+   run of equal keys that continues beyond the window (cs = 2^20 in production).  Composition of the C03
+   end-to-end theorem for the right-unique streamed generator (Proofs/JoinRU.v, JoinMainKRU.v) with C04's
+   map_stream_correct. *)
+Theorem ordered_merge_left_streamed_right_unique_total : forall L R srcs,
+  srcs <> [] -> sorted L -> ssorted R -> len R <= INVALID_INDEX -> (forall s, In s srcs -> len s = len R) ->
+  forall cs, 1 <= cs ->
+  ordered_merge_left Fixed cs L R srcs FFldSink [] MFld false true
+  = Ok (mk_oml None (Some (map (left_payload 0 L R) srcs)) (Some (map snd (left_join INVALID_INDEX L R))))
+  \/ (ordered_merge_left Fixed cs L R srcs FFldSink [] MFld false true = Raise E_ValueError /\ long_run_in cs L).
+Proof. exact oml_streamed_right_unique_total. Qed.
+Print Assumptions ordered_merge_left_streamed_right_unique_total.
 
-(* FULL.  ... and when that generator ends in its documented clear error, so does the call. *)
-Theorem ordered_merge_left_streamed_right_unique_error : forall L R srcs lu,
-  srcs <> [] -> (forall s, In s srcs -> len s = len R) -> forall cs, lu = false ->
-  streamed (mkvar KRU true) L R INVALID_INDEX cs = Raise E_ValueError ->
-  ordered_merge_left Fixed cs L R srcs FFldSink [] MFld lu true = Raise E_ValueError.
-Proof. exact oml_streamed_right_unique_error. Qed.
-Print Assumptions ordered_merge_left_streamed_right_unique_error.
+(* FULL.  ... hence the join whenever every window of cs left keys that does not reach the end of the column
+   contains two different adjacent keys (no_long_run; e.g. len L <= cs, or a unique left key and cs >= 2). *)
+Theorem ordered_merge_left_streamed_right_unique_correct : forall L R srcs,
+  srcs <> [] -> sorted L -> ssorted R -> len R <= INVALID_INDEX -> (forall s, In s srcs -> len s = len R) ->
+  forall cs, 1 <= cs -> no_long_run L cs ->
+  ordered_merge_left Fixed cs L R srcs FFldSink [] MFld false true
+  = Ok (mk_oml None (Some (map (left_payload 0 L R) srcs)) (Some (map snd (left_join INVALID_INDEX L R)))).
+Proof. exact oml_streamed_right_unique_correct. Qed.
+Print Assumptions ordered_merge_left_streamed_right_unique_correct.
+
+Example ordered_merge_left_streamed_right_unique_hyps :
+  sorted [1;1;2;2;4;5;5;5] /\ ssorted [0;1;2;3;5] /\ no_long_run [1;1;2;2;4;5;5;5] 3 /\
+  ordered_merge_left Fixed 3 [1;1;2;2;4;5;5;5] [0;1;2;3;5] [[10;20;30;40;50]] FFldSink [] MFld false true
+  = Ok (mk_oml None (Some [[20;20;30;30;0;50;50;50]]) (Some [1;1;2;2;INVALID_INDEX;4;4;4])).
+Proof.
+  destruct right_unique_hyps_ex as (H1 & H2 & H3 & _).
+  split; [exact H1|]. split; [exact H2|]. split; [exact H3|]. vm_compute. reflexivity.
+Qed.
 
 (* FULL.  "the array, field and streamed forms of the same call return the same values": any two in-memory
    forms, and (both keys unique) any in-memory form vs the streamed form at any chunk size. *)
@@ -159,6 +172,16 @@ Theorem ordered_merge_left_streamed_agrees : forall L R srcs lu,
                 oml_payloads o1 = oml_payloads o2.
 Proof. exact oml_streamed_agrees_both_unique. Qed.
 Print Assumptions ordered_merge_left_streamed_agrees.
+
+Theorem ordered_merge_left_streamed_agrees_right_unique : forall L R srcs,
+  srcs <> [] -> sorted L -> ssorted R -> len R <= INVALID_INDEX -> (forall s, In s srcs -> len s = len R) ->
+  forall ver cs0 fm sinks0 mk cs, 1 <= cs -> no_long_run L cs ->
+  streamable ver fm mk = false -> (fm = FArrSink -> sinks0 = zero_sinks L srcs) ->
+  exists o1 o2, ordered_merge_left ver cs0 L R srcs fm sinks0 mk false true = Ok o1 /\
+                ordered_merge_left Fixed cs L R srcs FFldSink [] MFld false true = Ok o2 /\
+                oml_payloads o1 = oml_payloads o2.
+Proof. exact oml_streamed_agrees_right_unique. Qed.
+Print Assumptions ordered_merge_left_streamed_agrees_right_unique.
 
 (* FULL.  The property text, row by row: "row r of a left-merge result is the right payload at the right row
    whose key equals left key r (empty value if none)". *)
